@@ -61,7 +61,20 @@ def _run_numeric(cfg, rel, probs, model):
 
 
 def check_relation(rec, cfg, rel, sigbase):
-    outs, probs = _run_symbolic(cfg, rel)
+    try:
+        outs, probs = _run_symbolic(cfg, rel)
+    except symc.SymbolicDivisionByZero:
+        raise
+    except (ValueError, TypeError, NotImplementedError, IndexError, AttributeError) as e:
+        # the related problems are all well posed (they are transformed copies of each other): an exception of the library is a violation
+        from .herm import library_exception_info
+
+        is_lib, where = library_exception_info(e)
+        if not is_lib:
+            raise
+        rec.direct_violation(f"{rel.kind}: library raised on a well-posed related problem", f"{sigbase}:{rel.kind}:raised-{type(e).__name__}",
+                             {"exception": f"{type(e).__name__}: {e}"[:300], "where": where, "relation": rel.kind})
+        return None, None
     N = probs[0].N
     items = rel.relation(outs, rel.scalars, N)
     bad = set()
@@ -480,6 +493,17 @@ def c15(cfg):
             return items
 
         rel = Rel(kind, [base, p2], relation)
+    elif kind == "scale_numeric":
+        # concrete power-of-two scale on carrier A (the library's own diagonal solver and its degeneracy tests): exact in floats
+        from fractions import Fraction as _F
+
+        sv = _F(2) ** int(cfg["log2_scale"])
+        s = SymC(symc._rv(sv))
+        E2 = [e * s for e in E]
+        terms2 = {o: M * s for o, M in terms1.items()}
+        p2 = dict(base, E=E2, terms=terms2)
+        rel = Rel(kind, [base, p2], lambda outs, sc, N: [
+            (f"{NAMES[w]} order={o}", outs[1][w][o], outs[0][w][o] * s if w == 0 else outs[0][w][o]) for o in outs[0][0] for w in range(3)])
     elif kind == "scale":
         s = SymC(symc.real("s"))
         symc.assume(s.re > 0)
@@ -917,6 +941,10 @@ def configs_c15(tier):
         add(carrier="A", hermitian=herm, sizes=[2, 2], spectrum=["1", "3", "2", "2"], relation="shift_numeric", shift="-2")
         add(carrier="A", hermitian=herm, sizes=[2, 2], spectrum=["2", "2", "1", "3"], relation="shift_numeric", shift="-2")
         add(carrier="A", hermitian=herm, sizes=[2, 1], spectrum=["1", "1", "2"], relation="shift_numeric", shift="-1", fd=[1])
+        # whole Hamiltonian scaled by 2^-30 and 2^20: far above the documented zero tolerance atol = 1e-12, same gap/energy ratios
+        for lg in (-30, 20):
+            add(carrier="A", hermitian=herm, sizes=[2, 2], spectrum=["1", "1", "2", "3"], relation="scale_numeric", log2_scale=lg)
+            add(carrier="A", hermitian=herm, sizes=[1, 2], spectrum=["0", "1", "2"], relation="scale_numeric", log2_scale=lg, fd=[1])
         add(carrier="A", hermitian=herm, sizes=[3], spectrum=["0", "2", "2"], relation="permute_basis", basis_perm=[1, 0, 2])
         add(carrier="A", hermitian=herm, sizes=[4], spectrum=["0", "0", "1", "2"], relation="permute_basis", basis_perm=[2, 0, 3, 1], max_order=2)
         add(carrier="A", hermitian=herm, sizes=[2, 2], spectrum=["1", "2", "0", "0"], relation="relabel", block_perm=[1, 0])
